@@ -27,7 +27,9 @@ RULE = ("pose histories (zero / small / large / partially and wholly outside / r
         "arrays (re-used, must stay untouched), near-repeated poses; several objects built from the same arrays evaluated in turn; "
         "decoy experiments of identical shapes just before the planted one; names registered at run time / near-miss names; a "
         "caller's own score object in optimize_match; 1 / 2 / thousands of atoms, float32 rotation matrices, weighted RMSD, "
-        "geometric centre.  distinct = distinct (component, configuration, input signature); "
+        "geometric centre.  Score formulas: every registered class's real __call__ / _interpolate (FLC: score(x)) on 1-3-D integer targets, "
+        "integer voxel positions (inside, partly and wholly outside the volume, scattered), planted and random integer weights, exact / "
+        "2^-16-off / half-voxel coordinates and subset masks for the masked score, against the model's rational formula.  distinct = distinct (component, configuration, input signature); "
         "single-pose histories, unbounded default-start stub cases whose result equals the start, and identity motions are "
         "trivial and not counted")
 ASSUMPTIONS = [
@@ -1678,6 +1680,357 @@ def _sec_kabsch(ctx, rng, n_cases):
     ctx.sample({"check": "kabsch", "points": kind, "n": n, "rotation": rk, "rmsd": float(rmsd), "max_dev": dev}, limit=7)
 
 
+
+# ------------------------------------------------------------------------------------------------
+# the score FORMULAS on integer-voxel inputs: the real classes against Model/C17Scores.lean, exactly
+def _frac(q):
+    from fractions import Fraction
+    return Fraction(int(q[0]), int(q[1]))
+
+
+def _close(a, b, rtol):
+    a, b = float(a), float(b)
+    if a != a or b != b:
+        return False
+    return abs(a - b) <= rtol * max(1.0, abs(a), abs(b))
+
+
+def _pow2(n):
+    n = int(n)
+    return n > 0 and (n & (n - 1)) == 0
+
+
+def _mi_edges_exact(vals):
+    """numpy's bin edges (linspace) place every integer datum where the exact edges lo + i*(hi-lo)/10 do"""
+    from fractions import Fraction
+    vals = [int(v) for v in vals]
+    lo, hi = min(vals), max(vals)
+    if lo == hi:
+        lo_f, hi_f, lo_q, hi_q = lo - 0.5, hi + 0.5, Fraction(2 * lo - 1, 2), Fraction(2 * hi + 1, 2)
+    else:
+        lo_f, hi_f, lo_q, hi_q = float(lo), float(hi), Fraction(lo), Fraction(hi)
+    edges = np.linspace(lo_f, hi_f, 11)
+    for i in range(11):
+        ex = lo_q + i * (hi_q - lo_q) / 10
+        for x in set(vals):
+            if (Fraction(float(edges[i])) <= x) != (ex <= x):
+                return False
+    return True
+
+
+def _sec_formulas(ctx, mo, reg, fam, rng, n_cases):
+    """every registered coordinate score, its real __call__ (and _interpolate) on integer voxel positions / small integer
+    weights and targets, against the model's formula over the rationals: exact where the value is a dyadic rational, to a few
+    float32 ulps where the code takes a square root / divides in float32.  Also through score(x) / score_translation(x)
+    whenever rigid_transform lands exactly on the voxels."""
+    import math
+    from fractions import Fraction
+    names_c2d = [k for k in C2D if k in reg]
+    names_c2c = [k for k in C2C if k in reg]
+    op_of = {"CrossCorrelation": "cc", "LaplaceCrossCorrelation": "laplace", "NormalizedCrossCorrelation": "ncc",
+             "NormalizedCrossCorrelationMean": "nccmean", "MaskedCrossCorrelation": "mcc",
+             "PartialLeastSquareDifference": "plsq", "MutualInformation": "mi", "Envelope": "envelope",
+             "Chamfer": "chamfer", "NormalVectorScore": "nvs"}
+    for case in range(n_cases):
+        nd = int(rng.choice([1, 2, 3, 3]))
+        shape = [int(rng.integers(3, 7)) for _ in range(nd)]
+        vmax = int(rng.choice([3, 7, 7, 13, 25]))   # wider ranges put several values into one histogram bin
+        data = rng.integers(0, vmax, size=shape).astype(np.float64)
+        if float(data.max()) == float(data.min()):
+            data.flat[0] += 1
+        cells = np.array(np.unravel_index(rng.permutation(int(np.prod(shape))), shape))
+        k = int(rng.integers(2, min(10, cells.shape[1]) + 1))
+        P0 = cells[:, :k].astype(np.int64)
+        planted = bool(rng.random() < 0.6)
+        w = data[tuple(P0)].copy() if planted else rng.integers(0, vmax, size=k).astype(np.float64)
+        if not np.any(w):
+            w[0] = 1.0
+            planted = False
+        kind = str(rng.choice(["zero", "shift", "shift", "far", "scatter"]))
+        if kind == "zero":
+            t = np.zeros(nd, dtype=np.int64)
+        elif kind == "shift":
+            t = rng.integers(-2, 3, size=nd)
+        else:
+            t = np.array([int(rng.integers(-s - 1, s + 2)) for s in shape])
+        P = P0 + t[:, None]
+        if kind == "scatter":
+            P = np.array([[int(rng.integers(-2, s + 2)) for _ in range(k)] for s in shape], dtype=np.int64)
+        negate = bool(rng.random() < 0.5)
+        base = {"shape": shape, "target": [int(v) for v in data.ravel()], "P": P.T.tolist(), "w": [int(v) for v in w],
+                "negate": negate}
+        for name in names_c2d:
+            op = op_of.get(name)
+            if op is None:
+                continue
+            args = dict(base)
+            kw = {}
+            tmask = None
+            den = 1
+            Pm0 = P0
+            coords_eval = P.astype(np.float32)
+            mask_eval = None
+            if name == "MaskedCrossCorrelation":
+                tmask = (rng.random(shape) < 0.8).astype(np.float64) if rng.random() < 0.6 else np.ones(shape)
+                sub = str(rng.choice(["same", "same", "subset"]))
+                Pm0 = P0 if sub == "same" else P0[:, ::2]
+                mode = str(rng.choice(["exact", "exact", "below", "above", "half"]))
+                den = 1 if mode == "exact" else 65536 if mode in ("below", "above") else 2
+                off = {"exact": 0, "below": -1, "above": 1, "half": 1}[mode]
+                Pn = P * den + off
+                # mask coordinates follow the same pose as the template coordinates
+                idx = list(range(0, k)) if sub == "same" else list(range(0, k, 2))
+                Pmn = Pn[:, idx]
+                coords_eval = (Pn / den).astype(np.float32)
+                mask_eval = (Pmn / den).astype(np.float32)
+                if not (np.array_equal(coords_eval.astype(np.float64) * den, Pn) and np.array_equal(mask_eval.astype(np.float64) * den, Pmn)):
+                    ctx.count("formula:mcc-not-representable")
+                    continue
+                args.update({"P": Pn.T.tolist(), "Pm": Pmn.T.tolist(), "den": den, "mask": [int(v) for v in tmask.ravel()]})
+            if name == "Envelope":
+                thr = int(rng.integers(0, vmax - 1))
+                kw["target_threshold"] = thr + 0.5
+                args.update({"thrNum": 2 * thr + 1, "thrDen": 2})
+            if name == "LaplaceCrossCorrelation":
+                args["P0"] = P0.T.tolist()
+            try:
+                with _quiet():
+                    obj = mo.create_score_object(
+                        name, target=data.copy(), template_coordinates=P0.astype(np.float64), template_weights=w.copy(),
+                        template_mask_coordinates=None if name != "MaskedCrossCorrelation" else Pm0.astype(np.float64),
+                        target_mask=tmask, negate_score=negate, **kw)
+                    obj.template_rotated[...] = coords_eval
+                    if mask_eval is not None:
+                        obj.template_mask_rotated[...] = mask_eval
+                    obj._target_values = obj._interpolate(obj.target, obj.template_rotated, order=obj.interpolation_order)
+                    real = obj()
+            except Exception as e:  # noqa
+                ctx.count(f"formula:{name}:raised-{type(e).__name__}")
+                ctx.spec("every registered score can be evaluated through the common interface",
+                         {"score": name, "stream": "formulas", "args": args}, False, {"error": repr(e)[:200]}, key=f"callable:{name}")
+                continue
+            if name == "MutualInformation":
+                vals = np.asarray(obj._target_values, dtype=np.float64)
+                if not (_mi_edges_exact(vals) and _mi_edges_exact(w)):
+                    ctx.count("formula:mi-edge-rounding-skipped")
+                    continue
+            m = ctx.driver.call("c17.score." + op, **args)
+            if isinstance(m, str):
+                ctx.agree(f"score formula {name}", args, "value", m)
+                continue
+            real = float(real)
+            sign = -1.0 if negate else 1.0
+            exact = False
+            if op in ("cc", "laplace", "plsq"):
+                want = _frac(m["score"])
+                ok = Fraction(real) == want
+                exact = True
+            elif op in ("ncc", "nccmean"):
+                num, dsq = _frac(m["num"]), _frac(m["densq"])
+                if m["guard"]:
+                    # the code's guard is `norm(w) * norm(v) <= 0` in float32: the exact product vanishes only if it does there
+                    want = 0.0
+                    ok = real == 0.0
+                else:
+                    want = float(num) / math.sqrt(float(dsq)) / sign
+                    ok = _close(real, want, 2e-5 if op == "nccmean" else 2e-6)
+            elif op == "mi":
+                want = float(_frac(m["score"]))
+                ok = _close(real, want, 1e-9)
+            elif op == "mcc":
+                num, d1, d2 = _frac(m["num"]), _frac(m["d1"]), _frac(m["d2"])
+                if d1 * d2 == 0:
+                    want = 0.0
+                    # an exact zero variance is an exact zero in float32 too (integer sums, exact quotient)
+                    ok = real == 0.0
+                else:
+                    want = float(num) / math.sqrt(float(d1 * d2)) * sign
+                    tight = all(_pow2(q.denominator) for q in (num, d1, d2))
+                    ok = _close(real, want, 2e-6 if tight else 2e-3)
+            elif op == "envelope":
+                want = (int(m["num"]) / int(m["den"])) * sign if int(m["den"]) != 0 else float("nan")
+                ok = (int(m["present"]) == int(obj.target_present) and int(m["absent"]) == int(obj.target_absent)
+                      and [int(v) for v in np.asarray(obj._target_values)] == [int(v) for v in m["values"]]
+                      and _close(real, want, 1e-15))
+                exact = True
+            else:
+                continue
+            if "values" in m and op not in ("envelope", "nccmean", "laplace"):
+                ok = ok and [Fraction(float(v)) for v in np.asarray(obj._target_values)] == [_frac(q) for q in m["values"]]
+            if op == "laplace":
+                ok = ok and [Fraction(float(v)) for v in np.asarray(obj._target_values)] == [_frac(q) for q in m["values"]] \
+                    and [Fraction(float(v)) for v in np.asarray(obj.template_weights)] == [_frac(q) for q in m["weights"]]
+            ctx.agree(f"score formula {name}: real __call__ on integer voxels == model", args,
+                      "equal" if ok else {"real": real, "want": float(want)}, "equal")
+            ctx.count(f"formula:{name}:{kind}" + (":planted" if planted else ""))
+            ctx.distinct(("formula", name, tuple(shape), kind, planted, negate, k))
+            if case < 3:
+                ctx.sample({"formula": name, "args": {k_: v_ for k_, v_ in args.items() if k_ != "target"}, "real": real,
+                            "model": m if len(json_dumps(m)) < 400 else "..."})
+            # exact-arithmetic clauses proved in Props/C17.lean, on the real values (integer poses only)
+            if planted and kind != "scatter" and name in ("NormalizedCrossCorrelation", "PartialLeastSquareDifference") and den == 1:
+                with _quiet():
+                    obj.template_rotated[...] = P0.astype(np.float32)
+                    obj._target_values = obj._interpolate(obj.target, obj.template_rotated, order=obj.interpolation_order)
+                    at0 = float(obj())
+                if name == "NormalizedCrossCorrelation":
+                    good = (at0 - real) * sign >= -2e-6 and _close(at0 * sign, 1.0, 2e-6)
+                else:
+                    good = at0 == 0.0 and real * sign >= 0.0
+                ctx.spec("similarity scores are best (within tolerance) at the pose that was used to generate the template",
+                         {"score": name, "stream": "formulas", "args": args}, good, {"planted": at0, "other": real},
+                         key=f"planted-exact:{name}")
+            # the same pose through the public interface, when rigid_transform lands exactly on the voxels
+            if kind in ("zero", "shift", "far") and name != "MaskedCrossCorrelation" and nd == 3:
+                x = tuple(float(v) for v in t) + (0.0,) * nd
+                try:
+                    with _quiet():
+                        via = float(obj.score(x))
+                        landed = bool(np.array_equal(np.asarray(obj.template_rotated, dtype=np.float64), P.astype(np.float64)))
+                        via_t = float(obj.score_translation(tuple(float(v) for v in t)))
+                except Exception as e:  # noqa
+                    ctx.count(f"formula:{name}:score-raised-{type(e).__name__}")
+                    continue
+                same = (via == via_t) or (via != via and via_t != via_t)
+                ctx.spec("every registered score can be evaluated through the common interface",
+                         {"score": name, "stream": "formulas", "x": list(x)}, same, {"score": via, "score_translation": via_t},
+                         key=f"interface:score_translation:{name}")
+                if landed:
+                    ctx.agree(f"score formula {name}: score(x) at a voxel translation == __call__ on the shifted voxels", args,
+                              _fkey(via), _fkey(real))
+                    ctx.count("formula:via-score:landed")
+                else:
+                    ctx.count("formula:via-score:off-voxel")
+        # point-set scores
+        d = 3
+        nA = int(rng.integers(2, 9))
+        A = rng.integers(-4, 8, size=(d, nA))
+        for name in names_c2c:
+            op = op_of[name]
+            if name == "Chamfer":
+                nB = int(rng.integers(1, 9))
+                B = rng.integers(-4, 8, size=(d, nB))
+                if rng.random() < 0.4:
+                    B = np.concatenate([A[:, rng.permutation(nA)], B], axis=1)
+            else:
+                B = A.copy() if rng.random() < 0.3 else rng.integers(-4, 8, size=(d, nA))
+                if not np.any(B):
+                    B[0, 0] = 1
+            if not np.any(A):
+                A[0, 0] = 1
+            args = {"A": (A.T.tolist() if name == "Chamfer" else A.tolist()), "B": (B.T.tolist() if name == "Chamfer" else B.tolist()),
+                    "negate": negate}
+            try:
+                with _quiet():
+                    obj = mo.create_score_object(name, target_coordinates=B.astype(np.float64), target_weights=np.ones(B.shape[1]),
+                                                 template_coordinates=A.astype(np.float64), template_weights=np.ones(nA),
+                                                 negate_score=negate)
+                    obj.template_coordinates_rotated[...] = A.astype(np.float32)
+                    real = float(obj())
+            except Exception as e:  # noqa
+                ctx.count(f"formula:{name}:raised-{type(e).__name__}")
+                ctx.spec("every registered score can be evaluated through the common interface",
+                         {"score": name, "stream": "formulas", "args": args}, False, {"error": repr(e)[:200]}, key=f"callable:{name}")
+                continue
+            m = ctx.driver.call("c17.score." + op, **args)
+            sign = -1.0 if negate else 1.0
+            if isinstance(m, str):
+                ctx.agree(f"score formula {name}", args, "value", m)
+                continue
+            if name == "Chamfer":
+                want = float(np.mean([math.sqrt(int(v)) for v in m["sq"]])) * sign
+                ok = _close(real, want, 1e-12)
+                covered = all(int(v) == 0 for v in m["sq"])
+                ctx.spec("similarity scores are best (within tolerance) at the pose that was used to generate the template",
+                         {"score": name, "stream": "formulas", "args": args},
+                         (real * sign >= 0.0) and ((real == 0.0) == covered), {"real": real, "sq": m["sq"]},
+                         key="planted-exact:Chamfer")
+            else:
+                want = int(m["num"]) / math.sqrt(int(m["densq"])) / int(m["count"]) * sign
+                ok = _close(real * int(m["count"]), want * int(m["count"]), 2e-6)
+            ctx.agree(f"score formula {name}: real __call__ on integer points == model", args,
+                      "equal" if ok else {"real": real, "want": want}, "equal")
+            ctx.count(f"formula:{name}")
+            ctx.distinct(("formula", name, nA, int(B.shape[1]), negate))
+
+
+def _sec_formula_flc(ctx, mo, rng, n_cases):
+    """FLC's formula at voxel translations (identity rotation, binary or full template mask): the real score(x) against
+    the model's (numerator, var g, var f, n) over the rationals; float32 arithmetic -> relative tolerance 1e-3.  Cases whose
+    exact variances vanish are compared only when the window is empty (the code's guard is the dtype's epsilon)."""
+    import math
+    from fractions import Fraction
+    for case in range(n_cases):
+        shape = [int(rng.integers(2, 5)) for _ in range(3)]
+        tshape = [int(rng.integers(4, 8)) for _ in range(3)]
+        data = rng.integers(0, 7, size=tshape).astype(np.float64)
+        planted = bool(rng.random() < 0.5 and all(a <= b for a, b in zip(shape, tshape)))
+        off = [int(rng.integers(0, b - a + 1)) if a <= b else 0 for a, b in zip(shape, tshape)]
+        if planted:
+            tmpl = data[tuple(slice(o, o + a) for o, a in zip(off, shape))].copy()
+        else:
+            tmpl = rng.integers(0, 7, size=shape).astype(np.float64)
+        full = bool(rng.random() < 0.5)
+        mask = np.ones(shape) if full else (rng.random(shape) < 0.7).astype(np.float64)
+        if mask.sum() < 2:
+            mask.flat[:2] = 1.0
+        kind = str(rng.choice(["planted", "near", "edge", "far"]))
+        if kind == "planted":
+            v = list(off)
+        elif kind == "near":
+            v = [o + int(rng.integers(-1, 2)) for o in off]
+        elif kind == "edge":
+            v = [int(rng.choice([-a + 1, b - 1, o])) for a, b, o in zip(shape, tshape, off)]
+        else:
+            v = [int(rng.integers(-a - 1, b + 2)) for a, b in zip(shape, tshape)]
+        negate = bool(rng.random() < 0.5)
+        args = {"shape": shape, "targetShape": tshape, "template": [int(x) for x in tmpl.ravel()],
+                "mask": [int(x) for x in mask.ravel()], "target": [int(x) for x in data.ravel()], "v": v, "negate": negate}
+        m = ctx.driver.call("c17.score.flc", **args)
+        if isinstance(m, str):
+            ctx.agree("score formula FLC", args, "value", m)
+            continue
+        num, vg, vf, n = _frac(m["num"]), _frac(m["vg"]), _frac(m["vf"]), _frac(m["n"])
+        empty = any(vv <= -a or vv >= b for vv, a, b in zip(v, shape, tshape))
+        if vg == 0 or (vf == 0 and not empty):
+            ctx.count("formula:FLC:degenerate-variance-skipped")
+            continue
+        try:
+            with _quiet():
+                obj = mo.create_score_object("FLC", target=data.copy(), template=tmpl.copy(), template_mask=mask.copy(),
+                                             negate_score=negate)
+                real = float(obj.score(tuple(float(x) for x in v) + (0.0, 0.0, 0.0)))
+        except Exception as e:  # noqa
+            ctx.count(f"formula:FLC:raised-{type(e).__name__}")
+            ctx.spec("every registered score can be evaluated through the common interface",
+                     {"score": "FLC", "stream": "formulas", "args": args}, False, {"error": repr(e)[:200]}, key="callable:FLC")
+            continue
+        sign = -1.0 if negate else 1.0
+        if vf == 0:
+            want = 0.0
+            ok = real == 0.0
+        else:
+            want = float(num) / (math.sqrt(float(vg)) * math.sqrt(float(vf)) * float(n)) * sign
+            ok = _close(real, want, 1e-3)
+        ctx.agree("score formula FLC: real score(x) at a voxel translation == model", args,
+                  "equal" if ok else {"real": real, "want": want}, "equal")
+        ctx.count(f"formula:FLC:{kind}" + (":full-mask" if full else ":binary-mask") + (":planted" if planted else ""))
+        ctx.distinct(("formula", "FLC", tuple(shape), tuple(tshape), kind, full, planted, negate))
+        if planted and v != list(off):
+            # Props/C17.lean flcOf_sq_le / flcOf_planted: any binary mask, any voxel translation (also partly / wholly outside)
+            with _quiet():
+                at0 = float(obj.score(tuple(float(x) for x in off) + (0.0, 0.0, 0.0)))
+            good = _close(at0 * sign, 1.0, 1e-3) and (at0 - real) * sign >= -1e-3
+            ctx.spec("similarity scores are best (within tolerance) at the pose that was used to generate the template",
+                     {"score": "FLC", "stream": "formulas", "args": args}, good, {"planted": at0, "other": real},
+                     key="planted-exact:FLC")
+
+
+def json_dumps(o):
+    import json
+    return json.dumps(o)
+
+
 # ------------------------------------------------------------------------------------------------
 def _import():
     from tme import matching_optimization as mo
@@ -1752,6 +2105,9 @@ def run(ctx):
     sec(_sec_planted, ctx, mo, reg, fam, ctx.rng("planted"), ctx.budget(8, 50), ctx.budget(50, 150))
     sec(_sec_optimize, ctx, mo, ctx.rng("optimize"), ctx.budget(300, 4000), ctx.budget(36, 400))
     sec(_sec_kabsch, ctx, ctx.rng("kabsch"), ctx.budget(300, 6000))
+    sec(_sec_formulas, ctx, mo, reg, fam, ctx.rng("formulas"), ctx.budget(60, 600))
+    if "FLC" in reg:
+        sec(_sec_formula_flc, ctx, mo, ctx.rng("formula-flc"), ctx.budget(60, 600))
     if first:
         raise RuntimeError("section crashed:\n" + first[0])
 
